@@ -27,6 +27,17 @@ partial def getPy (j : Json) : Except String Py := do
     let xs ← getList getTerm (← field j "xs")
     let t ← getNat (← field j "tag")
     pure (.iterable t xs)
+  | "operand" =>
+    -- an object described by its observed predicates: the MODEL decides what kind of operand it is
+    let b := fun (n : String) => do
+      match ← field j n with
+      | Json.bool v => pure v
+      | _ => throw s!"C01: operand field {n} is not a boolean"
+    let o : Operand := {
+      self := ← getTerm (← field j "c"), isIgnored := ← b "ignored", isIterableABC := ← b "abc",
+      iterWorks := ← b "iter", hasGetItem := ← b "getitem", hasLen := ← b "len",
+      tag := ← getNat (← field j "tag"), items := ← getList getTerm (← field j "xs") }
+    pure o.toPy
   | "stream1" => pure (.stream1 (← getPy (← field j "a")))
   | "stream2" => pure (.stream2 (← getPy (← field j "a")) (← getPy (← field j "b")))
   | "un" => pure (.un (nm (← getStr (← field j "d"))) (← getPy (← field j "s")))
@@ -61,6 +72,16 @@ def installed : Option (List (Name × Dunder)) := install ALV.Gen.OpTable.table
 def builderName : Builder → String
   | .unary => "unary" | .binary => "binary" | .rbinary => "rbinary"
 
+def getBase (s : String) : Option CBase :=
+  match s with
+  | "list" => some .list | "tuple" => some .tuple | "set" => some .set | "frozenset" => some .frozenset
+  | "deque" => some .deque | "sequence" => some .sequence
+  | _ => none
+
+def baseName : CBase → String
+  | .list => "list" | .tuple => "tuple" | .set => "set" | .frozenset => "frozenset" | .deque => "deque"
+  | .sequence => "sequence"
+
 def getKind (s : String) : Except String CKind :=
   match s with
   | "scalar" => pure .scalar | "str" => pure .str
@@ -69,13 +90,21 @@ def getKind (s : String) : Except String CKind :=
   | "generator" => pure .generator | "range" => pure .range | "enumerate" => pure .enumerate | "zip" => pure .zip
   | "zip_longest" => pure .zipLongest | "map" => pure .map | "filter" => pure .filter
   | "stream" => pure .stream | "streamSub" => pure .streamSub
-  | _ => throw s!"C01: unknown container kind {s}"
+  | _ =>
+    -- "sub:<base>:<class number>"
+    match s.splitOn ":" with
+    | ["sub", b, n] =>
+      match getBase b, n.toNat? with
+      | some b, some n => pure (.sub b n)
+      | _, _ => throw s!"C01: unknown container kind {s}"
+    | _ => throw s!"C01: unknown container kind {s}"
 
 def kindName : CKind → String
   | .scalar => "scalar" | .str => "str" | .list => "list" | .tuple => "tuple" | .set => "set"
   | .frozenset => "frozenset" | .deque => "deque" | .generator => "generator" | .range => "range"
   | .enumerate => "enumerate" | .zip => "zip" | .zipLongest => "zip_longest" | .map => "map"
   | .filter => "filter" | .stream => "stream" | .streamSub => "streamSub"
+  | .sub b n => "sub:" ++ baseName b ++ ":" ++ toString n
 
 def outKindName : OutKind → String
   | .value => "value" | .generator => "generator" | .stream => "stream"
